@@ -21,7 +21,7 @@ RULE = ('bodies: random bytes; grammar-mutated multipart (truncation at every of
         'chunked valid and malformed) x max_memfile_size x accessor {forms, files, POST, params, json, body}. Non-trivial = the body is not a '
         'well-formed instance of its content type; distinct = distinct (content type, body, framing, accessor, buffer).')
 PYOPT = {'quick': 1, 'thorough': 1}     # one unit of every kind is also served by an interpreter started with -O (assert statements compiled out)
-REQUIRED = ['units_run_under_python_-O', 'request_class_used_directly', 'requests_with_max_body_size', 'malformed_content_length_header', 'cpu_budget_requests', 'requests', 'status_2xx', 'status_4xx', 'multipart_mutations', 'truncations', 'json_bodies', 'urlencoded_bodies', 'random_bytes_bodies',
+REQUIRED = ['units_run_under_python_-O', 'requests_with_a_narrow_error_log', 'request_class_used_directly', 'requests_with_max_body_size', 'malformed_content_length_header', 'cpu_budget_requests', 'requests', 'status_2xx', 'status_4xx', 'multipart_mutations', 'truncations', 'json_bodies', 'urlencoded_bodies', 'random_bytes_bodies',
             'chunked_malformed_framing', 'delivered_fields_checked', 'step_budget_armed', 'accessor_forms', 'accessor_files', 'accessor_json',
             'accessor_body', 'accessor_POST', 'header_mutations', 'content_type_mutations']
 ASSUMPTIONS = ['a statement that never returns from C code (regular-expression engine) is invisible to LINE events: pathological header shapes are served in a child under RLIMIT_CPU = 40 CPU seconds (measured need < 2); CPU time, not wall-clock',
@@ -39,7 +39,11 @@ def base_body(rng):
     for i in range(n):
         if i and rng.random() < 0.3:
             i -= 1                  # the name of the part before: repeated names are collected in lists
-        if rng.random() < 0.5:
+        if rng.random() < 0.15:
+            # a text field with a non-ASCII name whose value is not UTF-8 (Shift-JIS, Latin-1): refused as a client error - whatever the
+            # refusal likes to quote from the request
+            parts.append((f'Content-Disposition: form-data; name="名前é{i}"', rng.choice([b'\x96\xbc\x91O', b'caf\xe9', b'\xff\xfe\x00'])))
+        elif rng.random() < 0.5:
             parts.append((f'Content-Disposition: form-data; name="t{i}"', rng.choice([b'v', b'text value', 'é日本'.encode(), b'', b'a\r\nb', b'--Xb', b'x' * 40])))
         else:
             parts.append((f'Content-Disposition: form-data; name="f{i}"; filename="f{i}.bin"\r\nContent-Type: application/octet-stream',
@@ -313,6 +317,11 @@ def do_request(ctx, sc, apps, rng, body, ctype, framing, acc, B_mem, mclass, bou
         env = make_environ('POST', '/' + acc, stream=RecStream(bytes(enc), policy), content_length=None, chunked=True, content_type=ctype)
         ctx.count('chunked_malformed_framing')
         sent = None
+    if (len(body) + B_mem) % 3 == 0:
+        # the server's error log takes ASCII only (a client error writes nothing there; whatever a diagnostic would like to say must not turn it into a 500)
+        from vmon.wsgi import NarrowLog
+        env['wsgi.errors'] = NarrowLog(('ascii', 'cp1252', 'latin1')[len(body) % 3])
+        ctx.count('requests_with_a_narrow_error_log')
     budget = 60000 + 600 * len(body)
     if mclass != 'replay-direct' and (len(body) + len(acc) + B_mem) % 5 == 0 and acc != 'all' or mclass == 'replay-direct':
         # the request class used on its own (no application around it): the same bytes, the same accessors;
